@@ -116,6 +116,9 @@ func Catalogue(tidBase uint16) []Frame {
 	bad("unsupported-fc", spec.TCP(0, 0x11, []byte{0x2B, 0x0E, 0x01, 0x00}), spec.ExIllegalFunc)
 	bad("qty-out-of-range", spec.Req{FC: 3, Unit: 0x11, Addr: 0, Qty: 126}.Frame(false), spec.ExIllegalValue)
 	bad("bytecount-inconsistent", spec.TCP(0, 0x11, []byte{0x10, 0, 1, 0, 2, 5, 0, 10, 1, 2}), 0)
+	// a well-formed request that only the HANDLER refuses (address range leaving the table): the error path behind the
+	// handler call, as opposed to the parse errors above (appended last: positions of the entries above are relied upon)
+	out = append(out, Frame{Name: "fc3-refused", Bytes: spec.Req{FC: 3, Unit: 0x11, TID: tidBase + uint16(len(out)), Addr: 0xFFFF, Qty: 2}.Frame(false), Valid: true, Exc: spec.ExIllegalAddress})
 	return out
 }
 
